@@ -96,6 +96,28 @@ int main(int argc, char** argv){
             const auto c = readCoord(); const auto parent = readCoord(); const long cc = r.get();
             std::ostringstream ks; ks << kOrder << (Per ? "-per" : "") << "-d" << Dim << "-deep-l" << level << "-c" << vh::listStr(c); const std::string k = ks.str();
             rep.scenarios++;
+#if ORDERV == 1
+            {   // Hilbert: the specification does not prescribe the curve; at deep levels the axioms that do not involve parent / child (known finding F06)
+                // are evaluated in COORDINATE space: index in range, index <-> coordinate round trip, neighbour and interaction lists = the cells at
+                // the offsets the specification lists (the returned indices are converted back with getBoxPosFromIndex)
+                (void)parent; (void)cc; (void)own;
+                const long hidx = (long)space.getIndexFromBoxPos(c);
+                const bool inRange = hidx >= 0 && (Dim * level >= 63 || hidx < (1L << (Dim * level)));
+                rep.ok("Bijection", k, inRange, "getIndexFromBoxPos (deep, Hilbert) returns " + std::to_string(hidx) + ", outside [0, 2^(Dim*level))");
+                if(!inRange) continue;
+                rep.eq("Bijection", k, vh::listStr(space.getBoxPosFromIndex(hidx)), vh::listStr(c), "getBoxPosFromIndex(getIndexFromBoxPos(c)) (deep, Hilbert)");
+                std::vector<std::array<long,Dim>> expNb, expIl; std::vector<long> codesNb, codesIl;
+                const long nNb = r.get(); for(long i = 0; i < nNb; ++i){ expNb.push_back(readCoord()); codesNb.push_back(r.get()); }
+                const long nIl = r.get(); for(long i = 0; i < nIl; ++i){ expIl.push_back(readCoord()); codesIl.push_back(r.get()); }
+                auto coordsOf = [&](const auto& lst, bool& ok){ std::vector<std::array<long,Dim>> v; for(auto x : lst){ const long xi = (long)x; if(xi < 0 || (Dim * level < 63 && xi >= (1L << (Dim * level)))){ ok = false; continue; } v.push_back(space.getBoxPosFromIndex(xi)); } std::sort(v.begin(), v.end()); return v; };
+                std::sort(expNb.begin(), expNb.end()); std::sort(expIl.begin(), expIl.end());
+                { bool ok = true; auto l1 = space.getNeighborListForIndex(hidx, level); auto obs = coordsOf(l1, ok);
+                  rep.ok("NeighbourListDef", k, ok && obs == expNb, "getNeighborListForIndex (deep, Hilbert): the cells returned are not the adjacent cells (observed " + std::to_string(obs.size()) + ", expected " + std::to_string(expNb.size()) + (ok ? ")" : ", indices out of range)")); }
+                { bool ok = true; auto l2 = space.getInteractionListForIndex(hidx, level); auto obs = coordsOf(l2, ok);
+                  rep.ok("InteractionListDef", k, ok && obs == expIl, "getInteractionListForIndex (deep, Hilbert): the cells returned are not the interaction list (observed " + std::to_string(obs.size()) + ", expected " + std::to_string(expIl.size()) + (ok ? ")" : ", indices out of range)")); }
+                continue;
+            }
+#endif
             const long idx = own(c, level);
             rep.eq("Bijection", k, (long)space.getIndexFromBoxPos(c), idx, "getIndexFromBoxPos (deep)");
             rep.eq("Bijection", k, vh::listStr(space.getBoxPosFromIndex(idx)), vh::listStr(c), "getBoxPosFromIndex (deep)");
